@@ -739,6 +739,20 @@ fn run_history<E: CoreApi + MgmtApi + RbacApi>(e: &mut E, steps: &str, cx: &mut 
                 "EN" => cx.flags[3] = f[1] == "1",
                 _ => {}
             }
+            // file-system fault injection for file adapters: make the policy file unavailable / available again
+            if f[0] == "FX" || f[0] == "FO" {
+                let r = match &cx.cur_file {
+                    Some(path) => {
+                        let gone = format!("{}.gone", path);
+                        let res = if f[0] == "FX" { std::fs::rename(path, &gone) } else { std::fs::rename(&gone, path) };
+                        cx.tmps.0.push(gone);
+                        if res.is_ok() { "1" } else { "E" }
+                    }
+                    None => "E",
+                };
+                out.push(r.to_string());
+                continue;
+            }
             if f[0] == "FRESH" {
                 fresh = build_fresh(cx);
                 out.push(if fresh.is_some() { "1".to_string() } else { "E".to_string() });
